@@ -15,12 +15,18 @@
 (*  then EVERY output requested through every call-style entry (pipeline(out, **kw), run, func) with exactly the          *)
 (*  keywords the needed functions read; the same for the faults introduced after construction.  Which families of         *)
 (*  mutants a TLC process generates is the constant Families.                                                             *)
+(*  Faults at a NON-FIRST output of a function with a tuple output (family "tuple_output", universe TupleBases: the C01    *)
+(*  cases with a second output and a mapped consumer, sharded by ShardT/NShardsT): the consumer is re-wired to the sibling *)
+(*  output (a valid case) and then gets the axis-name faults; the k-th output spec / the k-th output name gets the          *)
+(*  signature fault / the rename collision.  Operator default_pair: two functions that share a root argument declare two   *)
+(*  DIFFERENT defaults drawn from {None, 0, an ordinary value}, in both orders (None first / None second, ...).            *)
 (*  Trace part (mechanism C): requests built by the harness (fixed examples from the repository's tests, random        *)
 (*  larger mutants) with the recorded outcome of the real code; TLC runs the Prepare machine on the request and        *)
 (*  accepts the record iff it is an end state of the machine.                                                          *)
 EXTENDS Validity, SequencesExt, Json, IOUtils, TLCExt
 CONSTANTS MaxSize, RichM, ShardM, NShardsM,     \* the MC_MapDenote universe (sharded there)
           N, RichP, ShardP, NShardsP,           \* the MC_PipelineCall universe (sharded here by description)
+          ShardT, NShardsT,                     \* the tuple-output cases of the MC_MapDenote universe (sharded here)
           Families                              \* which mutant families this process generates: a subset of AllFamilies
 
 VARIABLES mut,      \* universe part: the mutant record [op, req, how] (req.prev = the valid base case, how = the public-API
@@ -29,6 +35,7 @@ VARIABLES mut,      \* universe part: the mutant record [op, req, how] (req.prev
 allvars == <<pvars, mut, tid, l>>
 
 M == INSTANCE MC_MapDenote WITH case <- 0, Rich <- RichM, Shard <- ShardM, NShards <- NShardsM
+MR == INSTANCE MC_MapDenote WITH case <- 0, Rich <- TRUE, Shard <- 0, NShards <- 1    \* CaseOK without the restriction of the lean universe
 P == INSTANCE MC_PipelineCall WITH d <- 0, phase <- "idle", out <- "", kw <- <<>>, mode <- "call", done <- {},
                                    Rich <- RichP, Shard <- ShardP, NShards <- NShardsP
 
@@ -78,6 +85,19 @@ ChangedDefault(b) == {[b EXCEPT !.desc = SetDefault(b.desc, i, p)] :
                           <<i, p>> \in {ip \in FIdx(b.desc) \X RootArgs(b.desc) :
                                            ip[2] \in ParamsOf(b.desc, ip[1]) /\ ~IsBound(b.desc, ip[1], ip[2])
                                            /\ ~(HasMapInputs(b.desc.funcs[ip[1]]) /\ ip[2] \in InSpecNames(b.desc.funcs[ip[1]]))}}
+(* contradicting pair of defaults: two functions that both take the root argument p (unbound, not mapped) declare two   *)
+(* DIFFERENT values for it.  The values include the ones that code likes to use as "nothing here" markers - None and a  *)
+(* falsy 0 - next to an ordinary value, and every ORDERED pair is generated: the marker-like value is declared by the   *)
+(* function listed first as well as by the one listed later.                                                            *)
+DefaultValues == {NoneT, Atom("@0"), ChangedV}
+SetDefaultTo(dd, i, p, v) ==
+    LET fn == dd.funcs[i]
+        rest == SelectSeq(fn.defaults, LAMBDA pr : pr[1] # p)
+    IN  SetFunc(dd, i, [fn EXCEPT !.defaults = Append(rest, <<p, v>>)])
+Declarable(dd, i, p) == p \in ParamsOf(dd, i) /\ ~IsBound(dd, i, p) /\ ~(HasMapInputs(dd.funcs[i]) /\ p \in InSpecNames(dd.funcs[i]))
+DefaultPair(b) == {[b EXCEPT !.desc = SetDefaultTo(SetDefaultTo(b.desc, x[1], x[3], x[4]), x[2], x[3], x[5])] :
+                       x \in {y \in FIdx(b.desc) \X FIdx(b.desc) \X RootArgs(b.desc) \X DefaultValues \X DefaultValues :
+                                 y[1] < y[2] /\ y[4] # y[5] /\ Declarable(b.desc, y[1], y[3]) /\ Declarable(b.desc, y[2], y[3])}}
 (* dropped / added input *)
 DroppedInput(b) == {[b EXCEPT !.inputs = SelectSeq(b.inputs, LAMBDA pr : pr[1] # p)] : p \in PKeys(b.inputs)}
 AddedInput(b)   == {[b EXCEPT !.inputs = Append(b.inputs, <<n, Atom("@extra")>>)] : n \in {"q_extra"} \cup AllOutputs(b.desc)}
@@ -116,11 +136,12 @@ MapSpecSignature(b) ==
     \cup {[b EXCEPT !.desc = SetFunc(b.desc, i, [b.desc.funcs[i] EXCEPT !.ms.outs[1].name = "nope_out"])] :
          i \in {j \in FIdx(b.desc) : b.desc.funcs[j].has_ms}}
 
-Ops == {"rename_collision", "added_edge", "changed_default", "dropped_input", "added_input", "resized_axis", "changed_rank",
+Ops == {"rename_collision", "added_edge", "changed_default", "default_pair", "dropped_input", "added_input", "resized_axis", "changed_rank",
         "axis_names", "mapspec_signature", "unknown_storage", "executor_without_parallel"}
 Apply(op, b) == CASE op = "rename_collision"  -> RenameCollision(b)
                   [] op = "added_edge"        -> AddedEdge(b)
                   [] op = "changed_default"   -> ChangedDefault(b)
+                  [] op = "default_pair"      -> DefaultPair(b)
                   [] op = "dropped_input"     -> DroppedInput(b)
                   [] op = "added_input"       -> AddedInput(b)
                   [] op = "resized_axis"      -> ResizedAxis(b)
@@ -204,13 +225,52 @@ PostCallMutants(b) ==
 (* ill-formed pipeline is then asked for EVERY one of its outputs through EVERY call-style entry.  For an output inside  *)
 (* or downstream of the fault an evaluation stumbles into it sooner or later; for one upstream of it, or in another      *)
 (* component of the graph, only a check of the whole pipeline can reject the request - which is what the property asks.  *)
-ConstructionOps == {"rename_collision", "added_edge", "changed_default"}
+ConstructionOps == {"rename_collision", "added_edge", "changed_default", "default_pair"}
 CallOp(op) == CASE op = "rename_collision" -> "rename_collision_call" [] op = "added_edge" -> "added_edge_call"
-                [] op = "changed_default" -> "changed_default_call"
+                [] op = "changed_default" -> "changed_default_call" [] op = "default_pair" -> "default_pair_call"
 IllFormedCallMutants(b, entries) ==
     IF ~NoMapSpecs(b.desc) THEN {}
     ELSE UNION {UNION {{[op |-> CallOp(op), how |-> NoHow, req |-> CallFor(m.desc, o, e, b)] :
                             o \in AllOutputs(m.desc), e \in entries} : m \in Apply(op, b)} : op \in ConstructionOps}
+
+(* --- faults at a non-first output of a function with several outputs.  "All outputs of a function have the same axes"  *)
+(* is true of the PRODUCER's MapSpec; it says nothing about what a consumer writes, so every output name has to be        *)
+(* looked at.  The universe: the C01 cases with a second output y2 and a consumer that has a MapSpec (all consumer kinds,  *)
+(* also those the lean C01 universe leaves out for tuple outputs).                                                         *)
+TupleCases == {c \in M!MapCases : MR!CaseOK(c) /\ c.multi /\ c.cons \in {"elementwise", "partial", "zipnew"}}
+SumSizes(sz) == LET RECURSIVE S(_)
+                    S(D) == IF D = {} THEN 0 ELSE LET a == CHOOSE a \in D : TRUE IN sz[a] + S(D \ {a})
+                IN S(DOMAIN sz)
+TupleKey(c, sz) == M!ConsIdx(c.cons) + 3 * c.ipos + 5 * Len(c.a) + 7 * Len(c.b) + 11 * Len(c.oax) + 13 * SumSizes(sz)
+                   + (IF c.a[1] = ":" THEN 17 ELSE 0)
+TupleBases == UNION {{[desc |-> M!DescOf(c), inputs |-> M!InputsOf(c, sz)] :
+                         sz \in {z \in M!SizeMaps(c) : TupleKey(c, z) % NShardsT = ShardT}} : c \in TupleCases}
+(* the valid re-wirings: a consumer of one output of a tuple reads a sibling output instead (same axes, so still valid) *)
+SiblingRewirings(b) ==
+    LET dd == b.desc IN
+    {[b EXCEPT !.desc = RenameParam(dd, x[1], x[2], x[3])] :
+        x \in {y \in FIdx(dd) \X AllOutputs(dd) \X AllOutputs(dd) :
+                  /\ y[2] \in ParamsOf(dd, y[1]) /\ ~IsBound(dd, y[1], y[2])
+                  /\ y[3] # y[2] /\ y[3] \notin ParamsOf(dd, y[1]) /\ FuncOf(dd, y[3]) = FuncOf(dd, y[2])}}
+(* the k-th (k > 1) output spec names something that is not the k-th output *)
+SignatureAtSibling(b) ==
+    {[b EXCEPT !.desc = SetFunc(b.desc, ik[1], [b.desc.funcs[ik[1]] EXCEPT !.ms.outs[ik[2]].name = "nope_out"])] :
+         ik \in {x \in FIdx(b.desc) \X (2..3) : b.desc.funcs[x[1]].has_ms /\ x[2] \in DOMAIN b.desc.funcs[x[1]].ms.outs}}
+(* the k-th (k > 1) output gets the name of an output of another function *)
+RenameOutAt(dd, j, k, new) ==
+    LET fn == dd.funcs[j] IN
+    SetFunc(dd, j, [fn EXCEPT !.outputs[k] = new,
+                              !.ms.outs = [m \in DOMAIN fn.ms.outs |-> IF m = k THEN [fn.ms.outs[m] EXCEPT !.name = new] ELSE fn.ms.outs[m]]])
+CollisionAtSibling(b) ==
+    {[b EXCEPT !.desc = RenameOutAt(b.desc, x[1], x[2], x[3])] :
+         x \in {y \in FIdx(b.desc) \X (2..3) \X AllOutputs(b.desc) :
+                   y[2] \in DOMAIN b.desc.funcs[y[1]].outputs /\ y[3] \notin OutputsOf(b.desc, y[1])}}
+TupleCfgs == {Cfg("file_array", cl, TRUE) : cl \in BOOLEAN}
+TupleMutants(b) ==
+    UNION {{[op |-> "axis_names_sibling", req |-> MapReq(m, c, rb), how |-> NoHow] : m \in AxisNames(rb), c \in TupleCfgs} :
+              rb \in SiblingRewirings(b)}
+    \cup {[op |-> "mapspec_signature_sibling", req |-> MapReq(m, c, b), how |-> NoHow] : m \in SignatureAtSibling(b), c \in TupleCfgs}
+    \cup {[op |-> "rename_collision_sibling", req |-> MapReq(m, c, b), how |-> NoHow] : m \in CollisionAtSibling(b), c \in TupleCfgs}
 
 (* --- the call side: pipeline(out, **kw) on the C02 descriptions; the valid base call passes every root argument that a  *)
 (* needed function reads; one keyword is dropped (missing unless it has a default) or one is added (a name that no        *)
@@ -226,11 +286,13 @@ CallMutants(b) ==
                 : o \in AllOutputs(b.desc)}
 
 AllOps == Ops \cup {"unknown_storage_in_dict", "post_rename_output", "post_rename_param", "post_update_defaults",
-                    "call_dropped_kw", "call_added_kw", "rename_collision_call", "added_edge_call", "changed_default_call"}
+                    "call_dropped_kw", "call_added_kw", "rename_collision_call", "added_edge_call", "changed_default_call",
+                    "default_pair_call", "axis_names_sibling", "mapspec_signature_sibling", "rename_collision_sibling"}
 (* the clauses a mutation operator can break (law) *)
 OpClauses(op) == CASE op = "rename_collision"  -> {"UniqueOutputs", "OutputNotOwnParam", "Acyclic"}
                    [] op = "added_edge"        -> {"OutputNotOwnParam", "Acyclic"}
                    [] op = "changed_default"   -> {"ConsistentDefaults"}
+                   [] op = "default_pair"      -> {"ConsistentDefaults"}
                    [] op = "dropped_input"     -> {"CompleteInputs"}
                    [] op = "added_input"       -> {"NoSurplusInputs"}
                    [] op = "resized_axis"      -> {"ZipDimsOK"}
@@ -248,9 +310,13 @@ OpClauses(op) == CASE op = "rename_collision"  -> {"UniqueOutputs", "OutputNotOw
                    [] op = "rename_collision_call" -> {"UniqueOutputs", "OutputNotOwnParam", "Acyclic"}
                    [] op = "added_edge_call"       -> {"OutputNotOwnParam", "Acyclic"}
                    [] op = "changed_default_call"  -> {"ConsistentDefaults"}
+                   [] op = "default_pair_call"     -> {"ConsistentDefaults"}
+                   [] op = "axis_names_sibling"        -> {"ConsistentAxes"}
+                   [] op = "mapspec_signature_sibling" -> {"MapSpecMatchesSignature"}
+                   [] op = "rename_collision_sibling"  -> {"UniqueOutputs", "OutputNotOwnParam", "Acyclic"}
 
 (* ("illformed_call": through pipeline(out, **kw); "illformed_run_func": the same requests through run and func) *)
-AllFamilies == {"basic", "storage_dict", "post_map", "post_call", "call_kw", "illformed_call", "illformed_run_func"}
+AllFamilies == {"basic", "storage_dict", "post_map", "post_call", "call_kw", "illformed_call", "illformed_run_func", "tuple_output"}
 ASSUME Families \subseteq AllFamilies
 Mutants == UNION {(IF "basic" \in Families THEN BasicMutants(b) ELSE {})
                   \cup (IF "storage_dict" \in Families THEN StorageDictMutants(b) ELSE {})
@@ -259,6 +325,7 @@ Mutants == UNION {(IF "basic" \in Families THEN BasicMutants(b) ELSE {})
                   \cup (IF "call_kw" \in Families THEN CallMutants(b) ELSE {})
                   \cup (IF "illformed_call" \in Families THEN IllFormedCallMutants(b, {"call"}) ELSE {})
                   \cup (IF "illformed_run_func" \in Families THEN IllFormedCallMutants(b, CallEntries \ {"call"}) ELSE {}) : b \in Bases}
+           \cup (IF "tuple_output" \in Families THEN UNION {TupleMutants(b) : b \in TupleBases} ELSE {})
 
 ---------------------------------------------------------------------------
 (* universe part: one behaviour of the Prepare machine per mutant *)
@@ -275,7 +342,10 @@ LawConj(v)        == (v = "none") <=> ValidConj(mut.req)                   \* Va
 LawOpClause(v)    == v \in OpClauses(mut.op) \cup {"none"}                 \* an operator breaks only its own clauses
 LawMapDenote      == LawAgreesWithMapDenote(mut.req)                       \* the shape clauses are C01's ValidMapRequest
 LawEntryBlind     == ConstructionVerdictIsEntryBlind(mut.req)              \* a construction verdict belongs to the pipeline
+LawAxesRole       == LawAxesByRole(mut.req.desc)                           \* every output spec of a producer counts
+LawDefaultsSym    == LawDefaultsSymmetric(mut.req.desc)                    \* defaults: neither order nor the values matter
 Laws == AtSecond => LET v == FirstViolated(mut.req) IN LawBaseValid /\ LawConj(v) /\ LawOpClause(v) /\ LawMapDenote /\ LawEntryBlind
+                                                       /\ LawAxesRole /\ LawDefaultsSym
 InvRejectIsPure       == RejectIsPure
 StorageMutantsOnly    == mut.op \in {"unknown_storage", "unknown_storage_in_dict"}   \* CONSTRAINTs of the runs that look for
 CallMutantsOnly       == mut.op \in {"call_dropped_kw", "call_added_kw"}            \* the implementation-shaped orderings
